@@ -930,6 +930,27 @@ func (m *Machine) step(st *State) (forks []*State) {
 		v := m.get(st, fr, x.X)
 		iv, isI := v.(IfaceV)
 		okv := isI && types.Identical(iv.T, x.AssertedType)
+		if it, toIface := x.AssertedType.Underlying().(*types.Interface); toIface && isI {
+			// assertion to an interface type: the dynamic type must implement it; the value stays boxed
+			if _, isR := iv.V.(RType); isR {
+				st.stuck("type assertion on a reflect.Type")
+				return nil
+			}
+			impl := types.Implements(iv.T, it)
+			if x.CommaOk {
+				if impl {
+					set(&TupleV{E: []Val{iv, true}})
+				} else {
+					set(&TupleV{E: []Val{nilV{}, false}})
+				}
+			} else if impl {
+				set(iv)
+			} else {
+				st.Status = stPanic
+				st.Msg = "failed type assertion at " + m.P.Pos(x.Pos())
+			}
+			return nil
+		}
 		if _, unk := v.(Unknown); unk {
 			st.stuck("type assertion on unknown value")
 			return nil
@@ -1155,6 +1176,11 @@ func inRepoOrRef(fn *ssa.Function) bool {
 		// anonymous functions have Pkg via parent
 		if fn.Parent() != nil {
 			return inRepoOrRef(fn.Parent())
+		}
+		// method wrappers (pointer receiver / promoted through embedding) belong to the wrapped method
+		if o := fn.Object(); o != nil && o.Pkg() != nil && fn.Blocks != nil {
+			pp := o.Pkg().Path()
+			return strings.HasPrefix(pp, repoModule) || strings.HasPrefix(pp, "gdsa/")
 		}
 		return false
 	}
@@ -1680,6 +1706,10 @@ func (m *Machine) compare(st *State, op token.Token, a, b Val) (Val, bool) {
 		}
 	case Unknown:
 		return Unknown{Why: "compare unknown"}, true
+	case RType:
+		if y, ok := b.(RType); ok && (op == token.EQL || op == token.NEQ) {
+			return types.Identical(x.T, y.T) == (op == token.EQL), true
+		}
 	case *StructV:
 		if y, ok := b.(*StructV); ok && (op == token.EQL || op == token.NEQ) {
 			eq := true
